@@ -767,6 +767,8 @@ class World(object):
             raise ValueError('arbitrary exception {injected at op %d %s} {0} {}' % (i, name))
         if f == 'timeout':
             raise _real_socket.timeout('timed out (injected)')
+        if f == 'eintr':
+            raise OSError(errno.EINTR, 'Interrupted system call (injected at op %d %s)' % (i, name))
         raise HarnessError('unknown fault %r' % (f,))
 
     # ------------------------------------------------------------------ socket module
